@@ -196,6 +196,32 @@ ExpandDef(d, args, env) ==
     ELSE Elab(d.body, [d.env EXCEPT !.lets = Override(d.env.lets,
                           [nm \in {d.ps[j].n : j \in 1..Len(d.ps)} |-> args[CHOOSE j \in 1..Len(d.ps) : d.ps[j].n = nm]])])
 
+(* String literals (theory of Unicode Strings, SMT-LIB 2.6): inside a literal the escape sequences
+   \ud3d2d1d0 (exactly four hexadecimal digits) and \u{d0} ... \u{d4d3d2d1d0} (one to five digits, the first
+   of five in 0..2) denote the character with that code; every other character denotes itself.  (The
+   doubled quote is lexical and already resolved by the reader.) *)
+HexVal(c) == IF 48 <= c /\ c <= 57 THEN c - 48
+             ELSE IF 97 <= c /\ c <= 102 THEN c - 87
+             ELSE IF 65 <= c /\ c <= 70 THEN c - 55 ELSE -1
+RECURSIVE HexNum(_, _)
+HexNum(ds, acc) == IF ds = <<>> THEN acc ELSE HexNum(Tail(ds), 16 * acc + HexVal(Head(ds)))
+RECURSIVE Unescape(_)
+Unescape(cs) ==
+    IF cs = <<>> THEN <<>>
+    ELSE LET n == Len(cs)
+             plain == <<cs[1]>> \o Unescape(Tail(cs))
+         IN  IF ~(n >= 2 /\ cs[1] = 92 /\ cs[2] = 117) THEN plain
+             ELSE IF n >= 6 /\ \A k \in 3..6 : HexVal(cs[k]) >= 0
+                  THEN <<HexNum(SubSeq(cs, 3, 6), 0)>> \o Unescape(SubSeq(cs, 7, n))
+             ELSE IF n >= 5 /\ cs[3] = 123 /\ \E j \in 5..n : cs[j] = 125
+                  THEN LET j == CHOOSE j \in 5..n : cs[j] = 125 /\ \A k \in 5..(j - 1) : cs[k] # 125
+                           ds == SubSeq(cs, 4, j - 1)
+                       IN  IF Len(ds) >= 1 /\ Len(ds) <= 5 /\ (\A k \in 1..Len(ds) : HexVal(ds[k]) >= 0)
+                              /\ (Len(ds) = 5 => HexVal(ds[1]) <= 2)
+                           THEN <<HexNum(ds, 0)>> \o Unescape(SubSeq(cs, j + 1, n))
+                           ELSE plain
+             ELSE plain
+
 ElabAtomSym(nm, env) ==
     CASE nm \in DOMAIN env.lets -> env.lets[nm]
       [] nm = "true" -> BoolC(TRUE)
@@ -209,7 +235,7 @@ Elab(sx, env) ==
       [] sx.k = "num" -> IF env.numReal THEN RealC(<<sx.n[1], 1>>) ELSE IntC(sx.n[1])
       [] sx.k = "dec" -> RealC(QNorm(sx.n[1], sx.n[2]))
       [] sx.k \in {"hex", "bin"} -> BVC(sx.n[1], sx.n[2])
-      [] sx.k = "str" -> StrC(sx.cs)
+      [] sx.k = "str" -> StrC(Unescape(sx.cs))
       [] sx.k = "bvlit" ->   \* (_ bvN w), decoded by the reader
             IF sx.n[2] >= 1 /\ sx.n[1] >= 0 /\ (sx.n[2] > 30 \/ sx.n[1] < Pow2(sx.n[2])) THEN BVC(sx.n[1], sx.n[2])
             ELSE ErrT("bit-vector literal out of range")
